@@ -9,3 +9,4 @@ open Just.C10
 #print axioms parse_print_in_context
 #print axioms parsed_is_wellformed
 #print axioms format_of_any_source
+#print axioms header_roundtrip
